@@ -186,12 +186,15 @@ pub fn c12(ctx: &Ctx) -> PropResult {
         if c.check {
             args.push("--check".into());
         }
+        // the model's prediction first: a program it cannot finish within its budget is not run at all
+        let model_stdin = if c.mode == "stdin" { "" } else { c.stdin.as_str() };
+        let reply = d.ask(&format!("CLI {} {} {} h{} h{}", if c.mode == "stdin" { "evalStdin" } else { c.mode }, c.debug, if c.check { 1 } else { 0 }, hex(c.src.as_bytes()), hex(model_stdin.as_bytes())));
+        if reply.ends_with("fuel=1") && !c.check {
+            return Verdict { tags: vec!["skipped:model-out-of-budget".into()], sample: format!("fuel | {}", c.src), nontrivial: false, failure: None };
+        }
         let argrefs: Vec<&str> = args.iter().map(|s| s.as_str()).collect();
         let r1 = run_binary(&argrefs, stdin_data.as_deref(), dir);
         let r2 = run_binary(&argrefs, stdin_data.as_deref(), dir); // "on every run"
-        // the model's prediction
-        let model_stdin = if c.mode == "stdin" { "" } else { c.stdin.as_str() };
-        let reply = d.ask(&format!("CLI {} {} {} h{} h{}", if c.mode == "stdin" { "evalStdin" } else { c.mode }, c.debug, if c.check { 1 } else { 0 }, hex(c.src.as_bytes()), hex(model_stdin.as_bytes())));
         let f: Vec<&str> = reply.split(' ').collect();
         let case = Case::new(Kind::Run, c.src.clone()).aux(format!("mode={} debug={} check={} stdin={:?}", c.mode, c.debug, c.check, c.stdin));
         let impl_rec = format!("exit={:?} stdout={} stderr_nonempty={}", r1.code, hex(&r1.stdout), !r1.stderr.is_empty());
